@@ -23,6 +23,9 @@ LITERALS = [
     ("bool", "true", "bool:true"), ("char", "'x'", "char:120"), ("&'static str", "\"hi\"", "str:6869"),
     ("::std::string::String", "\"hi\"", "String:6869"), ("::std::string::String", "'c'", "String:63"),
     ("u64", "5u8", None), ("i64", "5i32", None), ("f64", "1.5f32", None),
+    ("f64", "0.1f32", "f64:0.10000000149011612"), ("f64", "16777217.0f32", "f64:16777216.0"), ("f64", "0.1", "f64:0.1"),
+    ("f32", "0.1", "f32:0.1"), ("f32", "0.1f32", "f32:0.1"), ("f64", "0.1f64", "f64:0.1"), ("u64", "300u16", "u64:300"),
+    ("i64", "-5", "i64:-5"), ("i8", "-128", "i8:-128"), ("u128", "7", "u128:7"),
     (RT + "W", "3", "W:403"), (RT + "W", "true", "W:601"), (RT + "W", "'a'", "W:797"), (RT + "W", "1.5", "W:801"),
     (RT + "W", "\"abc\"", "W:903"), (RT + "W", "7u8", "W:507"), (RT + "W", "9u16", "W:1109"),
     ("u8", "b'a'", "u8:97"), (RT + "W", "b'a'", "W:597"),
